@@ -81,13 +81,14 @@ def _validate_chunk(mod, cfg, chunk, workdir, tag, max_rejections, timeout):
             accepted += len(remaining)
             stats["events"] += nev
             break
-        if res.printed:
-            n = int(res.printed[-1].split(",")[1].strip())
-            reason = "unmatched"
-        elif res.violation and res.violation.startswith("Invariant"):
+        if res.violation and res.violation.startswith("Invariant"):
             ls = [ln for ln in res.trace if ln.startswith("/\\ l = ")]
             n = int(ls[-1].split("=")[1]) - 2 if ls else 0
             reason = "invariant:" + res.violation.split()[1]
+
+        elif res.printed:
+            n = int(res.printed[-1].split(",")[1].strip())
+            reason = "unmatched"
         else:
             raise ToolError("unexpected TLC outcome in trace validation: %s\n%s" % (res.violation, res.output[-3000:]))
         pos, hit = 0, None
